@@ -338,6 +338,7 @@ fn frag_cases(run: &mut Run, rt: &tokio::runtime::Runtime, rng: &mut Rng, thorou
     let mps: [Option<usize>; 6] = [None, Some(1), Some(100), Some(1172), Some(1200), Some(5000)];
     let mut port = 60_000u16;
     let mut n = 0;
+    let mut refused_ok = true;
     for &size in &sizes {
         for mp in mps {
             if mp == Some(1) && size > 3000 { continue; }
@@ -355,6 +356,10 @@ fn frag_cases(run: &mut Run, rt: &tokio::runtime::Runtime, rng: &mut Rng, thorou
                     cfg.max_buffered = 0;
                     let chans = if variant == 4 { vec![] } else { vec![spec.clone()] };
                     let ep = Endpoint::new(port, port + 1, true, &cfg, &chans).await;
+                    // a channel that is still Connecting refuses data (98ed161, 23adf47): nothing is queued
+                    if variant != 4 && ep.sctp.send_data(7, b"early").await.is_ok() { refused_ok = false; }
+                    if !ep.sctp.verif_snapshot().outbound_queue.is_empty() { refused_ok = false; }
+                    for d in &ep.dcs { d.state.store(1, std::sync::atomic::Ordering::SeqCst); }
                     for _ in 0..presend { let _ = ep.sctp.send_data(7, b"x").await; }
                     let before = ep.sctp.verif_snapshot().outbound_queue.len();
                     let next_before = ep.dcs.first().map(|d| d.next_ssn.load(std::sync::atomic::Ordering::SeqCst));
@@ -382,6 +387,7 @@ fn frag_cases(run: &mut Run, rt: &tokio::runtime::Runtime, rng: &mut Rng, thorou
         }
     }
     run.count_n("frag_cases", n);
+    if !refused_ok { run.fail("send:accepted-on-a-channel-that-is-still-connecting", "frag", "send_data returned Ok or queued chunks while the channel state was Connecting"); }
 }
 
 // ------------------------------------------------------------------------------------------
@@ -400,8 +406,9 @@ pub fn case_text(c: &Case) -> String {
     let ms = if c.msgs.is_empty() { "-".to_string() } else if c.msgs.iter().any(|m| m.phase == 1) { format!("{}|{}", mt(0), mt(1)) } else { mt(0) };
     let ep = |e: &EpCfg| format!("{}:{}:{}:{}:{}:{}:{}", e.rwnd, e.rto_initial_ms, e.max_burst, e.max_cwnd,
         e.seed_tsn.map(|v| v.to_string()).unwrap_or("-".into()), e.seed_tag.map(|v| v.to_string()).unwrap_or("-".into()), e.max_buffered);
-    let cl = if c.closes.is_empty() { "-".to_string() } else { c.closes.iter().map(|(s, id)| format!("{}{id}", ["A", "B"][*s])).collect::<Vec<_>>().join(";") };
-    format!("link epA={} epB={} chA={} chB={} msgs={} faults={} closes={cl} end={}", ep(&c.cfg[0]), ep(&c.cfg[1]), ch(&c.chans[0]), ch(&c.chans[1]), ms, faults_text(&c.faults), c.end.text())
+    let cl = if c.closes.is_empty() { "-".to_string() } else { c.closes.iter().map(|(s, id)| format!("{}{}{id}", if *s >= 2 { "^" } else { "" }, ["A", "B"][*s % 2])).collect::<Vec<_>>().join(";") };
+    format!("link epA={} epB={} chA={} chB={} msgs={} faults={} closes={cl} end={}{}", ep(&c.cfg[0]), ep(&c.cfg[1]), ch(&c.chans[0]), ch(&c.chans[1]), ms, faults_text(&c.faults), c.end.text(),
+        if c.settle > Duration::from_millis(1000) { format!(" settle={}", c.settle.as_millis()) } else { String::new() })
 }
 
 /// payload of message `idx` on a channel: deterministic, distinct per (side, chan, idx), any size
@@ -443,8 +450,10 @@ pub fn parse_case(s: &str) -> Option<Case> {
         }
     }
     Some(Case { cfg: [ep(kv.get("epA")?)?, ep(kv.get("epB")?)?], chans: [ch(kv.get("chA")?), ch(kv.get("chB")?)], msgs,
-        faults: faults_parse(kv.get("faults")?), deadline: Duration::from_secs(12), settle: Duration::from_millis(60),
-        closes: match kv.get("closes") { Some(t) if t != "-" => t.split(';').filter_map(|x| Some((if x.starts_with('A') { 0 } else { 1 }, x[1..].parse().ok()?))).collect(), _ => vec![] },
+        faults: faults_parse(kv.get("faults")?), deadline: Duration::from_secs(12),
+        settle: Duration::from_millis(kv.get("settle").and_then(|t| t.parse().ok()).unwrap_or(60)),
+        closes: match kv.get("closes") { Some(t) if t != "-" => t.split(';').filter_map(|x| { let (early, x) = match x.strip_prefix('^') { Some(r) => (2, r), None => (0, x) };
+            Some((early + if x.starts_with('A') { 0 } else { 1 }, x[1..].parse().ok()?)) }).collect(), _ => vec![] },
         end: kv.get("end").map(|t| End::parse(t)).unwrap_or(End::None) })
 }
 
@@ -484,6 +493,7 @@ pub fn replay_lines(side: usize, c: &Case, o: &Outcome) -> (String, String, usiz
             hook::Ev::Mark("enqueue", v) => {
                 if in_rx && v[1] == 50 { acts.push(if v[2] == 1 { format!("ack{}", v[0]) } else { format!("open{}", v[0]) }); }
             }
+            hook::Ev::Mark("close_dc", v) if c.closes.iter().any(|(s2, id)| *s2 == side + 2 && *id as u64 == v[0]) => toks.push(format!("X,{}", v[0])),
             hook::Ev::Mark(_, _) => {}
             hook::Ev::Rx(p) => { toks.push(format!("R,{}", hex(p))); nrx += 1; in_rx = true; }
             hook::Ev::Tx(p) => {
@@ -508,7 +518,7 @@ pub fn replay_lines(side: usize, c: &Case, o: &Outcome) -> (String, String, usiz
     // position among the trace events of the closing phase, so they are replayed first; then the teardown
     let quiet_at = toks.len();
     let _ = quiet_at;
-    for (s2, id) in &c.closes { if *s2 == side { toks.push(format!("X,{id}")); } }
+    for (s2, id) in &c.closes { if *s2 == side { toks.push(format!("X,{id}")); } }   // early closes (side + 2): at their trace mark
     if o.ended { if let End::LocalClose(s2) = c.end { if s2 == side { toks.push("Z".into()); } } }
     toks.push("F".into());
     let chans = if o.chans_final[side].is_empty() { "-".to_string() } else { o.chans_final[side].iter().map(|cf| {
@@ -626,6 +636,28 @@ fn link_cases(args: &Args, rng: &mut Rng) -> Vec<LinkCase> {
         let tsn = if (k + d2) % 2 == 0 { None } else { Some(0xFFFF_FFFBu32) };
         v.push(LinkCase { name: format!("stale-gap-sack-{f}"), case: mk_case(&[70_000], faults_parse(&f), tsn) });
     } } } }
+    // an established association left idle for longer than the whole INIT / COOKIE-ECHO retransmission budget stays up
+    // (a T1 timer that was never cancelled would close it with INIT_TIMEOUT), and still carries data afterwards
+    {
+        let mut c = mk_case(&[300, 5000], vec![], None);
+        c.settle = Duration::from_millis(3800);
+        v.push(LinkCase { name: "long-idle".into(), case: c });
+        let mut c = mk_case(&[300, 5000], faults_parse("B.COOKIEACK.1.drop"), Some(0xFFFF_FFF0));
+        c.settle = Duration::from_millis(3800);
+        v.push(LinkCase { name: "long-idle-after-cookie-ack-loss".into(), case: c });
+    }
+    // the peer closes one channel (RE-CONFIG outgoing SSN reset for that stream) in the middle of the traffic:
+    // the sibling channel keeps its sequence numbers and its order
+    for (i, closer) in [3usize, 2].iter().enumerate() {
+        let mut c = mk_case(&[10, 20, 3000, 30], vec![], if i == 0 { None } else { Some(0xFFFF_FFF9) });
+        for side in 0..2 { c.chans[side].push(ChanSpec::reliable(2)); }
+        c.msgs.insert(0, Msg { side: 0, chan: 2, data: payload(0, 2, 0, 40), phase: 0, task: 0 });
+        c.msgs.push(Msg { side: 1, chan: 1, data: payload(1, 1, 0, 50), phase: 0, task: 0 });
+        c.msgs.push(Msg { side: 1, chan: 1, data: payload(1, 1, 1, 60), phase: 1, task: 0 });
+        c.msgs.push(Msg { side: 0, chan: 1, data: payload(0, 1, 4, 70), phase: 1, task: 0 });
+        c.closes = vec![(*closer, 2)];
+        v.push(LinkCase { name: format!("close-sibling-midway{i}"), case: c });
+    }
     // thorough: every pair of faults on the four setup chunks
     if args.tier_thorough {
         let setup: Vec<(usize, u8)> = vec![(0, 1), (1, 2), (0, 10), (1, 11)];
